@@ -340,9 +340,17 @@ def bounded(chk):
                         for sup in supports[:4]:
                             items.append(dict(base, fn="joint", sampler="replacement", support=sup, nb=5))
                             items.append(dict(base, fn="pointwise", sampler="replacement", support=sup, nb=15))
+            # the whole documented alpha range (0,1) for every band function
+            for al in (0.01, 0.5, 0.7, 0.95):
+                b2 = {"npos": 9, "nneg": 7, "ep": 0, "en": 0, "sc": sc, "ec": ec, "alpha": al, "method": "quantile", "seed": chk.seed * 100 + seed}
+                items.append(dict(b2, fn="roc_with_ci", sampler="identity", support={"nb_points": None}))
+                items.append(dict(b2, fn="roc_with_ci", sampler="replacement", support={"nb_points": 9}, nb=15))
+                items.append(dict(b2, fn="fixed", sampler="replacement", support={"nb_points": 9}, nb=15))
+                items.append(dict(b2, fn="joint", sampler="replacement", support={"nb_points": 9}, nb=5))
+                items.append(dict(b2, fn="pointwise", sampler="replacement", support={"nb_points": 9}, nb=15))
             items.append({"npos": 5, "nneg": 6, "sc": sc, "ec": ec, "alpha": 0.1, "method": "quantile", "seed": chk.seed * 100 + seed, "ties": True, "fn": "roc_with_ci", "sampler": "identity", "support": {"nb_points": None}})
             items.append({"npos": 5, "nneg": 6, "sc": sc, "ec": ec, "alpha": 0.1, "method": "bc", "seed": chk.seed * 100 + seed, "separated": sc == "pos", "fn": "roc_with_ci", "sampler": "identity", "support": {"nb_points": 6}})
-    chk.bounded["bound"] = "2..30 scores per class (with and without easy samples, ties, separated classes), 3 configurations, 6 support combinations, alpha 0.05 / 0.2, quantile / bc / bca, identity sampler (closed form: rule of three + envelope) and built-in samplers; the three experimental band functions on their documented supports"
+    chk.bounded["bound"] = "2..30 scores per class (with and without easy samples, ties, separated classes), 3 configurations, 6 support combinations, alpha 0.05 / 0.2 (and 0.01, 0.5, 0.7, 0.95 for every band function), quantile / bc / bca, identity sampler (closed form: rule of three + envelope) and built-in samplers; the three experimental band functions on their documented supports"
     chk.bounded["rule"] = "seeded grid"
     run_bounded(chk, items, eval_items)
     chk.samples.append({"bounded-case": items[3]})
